@@ -22,7 +22,7 @@ EXPLANATION = (
 ASSUMPTIONS = ["std::atomic<thread_state>::compare_exchange_strong is atomic", "work_items_/new_tasks_/terminated_items_ deliver each pushed element to one pop (C17)",
                "on_start_thread runs on the owning worker before the pool's start-up barrier releases any work (reserve() calls exempt from R6)"]
 THOROUGH_CONFIGS = [["-UNDEBUG", "-DPIKA_DEBUG"], ["-DPIKA_HAVE_THREAD_QUEUE_WAITTIME"]]
-FLOORS = {"C01.R1": 8, "C01.R2": 6, "C01.R3": 8, "C01.R4": 24, "C01.R5": 12, "C01.R6": 10, "C01.R7": 9, "C01.R8": 2, "C01.R9": 1, "C01.R10": 6, "C01.R11": 4, "C01.R12": 20, "C01.R13": 4, "C01.R14": 3, "C01.R15": 5, "C01.R16": 6, "C01.R17": 3}
+FLOORS = {"C01.R1": 8, "C01.R2": 6, "C01.R3": 8, "C01.R4": 24, "C01.R5": 12, "C01.R6": 10, "C01.R7": 9, "C01.R8": 2, "C01.R9": 1, "C01.R10": 6, "C01.R11": 4, "C01.R12": 20, "C01.R13": 4, "C01.R14": 3, "C01.R15": 5, "C01.R16": 6, "C01.R17": 3, "C01.R18": 2}
 
 TSS = "pika::threads::detail::thread_schedule_state"
 TD = "pika::threads::detail::thread_data"
@@ -49,6 +49,11 @@ def run(rep, tier):
     rep.rule("C01.R5", "K8: container push preceded by counter increment; successful pop followed by counter decrement")
     rep.rule("C01.R6", "K1: thread_map_ and thread_heap_* only under mtx_")
     rep.rule("C01.R7", "K3: scheduler create_thread/schedule_thread/schedule_thread_last enqueue exactly once on every non-throwing path")
+    rep.rule("C01.R18", "K3 (a popped description is a task): in the conversion loops of both queue implementations (thread_queue::add_new, thread_queue_mc::add_new - the latter "
+             "behind the shared-priority scheduler) a task description that was popped from the staged queue is turned into a thread object and queued before the loop "
+             "pops again or the function returns: on the edge where new_task_items_.pop(..) succeeded an obligation starts that only create_thread_object followed by "
+             "schedule_thread / schedule_work ends. A description popped and then dropped (batch budget tested after the pop) is a task whose body is never entered while "
+             "the counters still count it - pika::wait() hangs")
     rep.rule("C01.R8", "K2: map insert before schedule (run_now); ++thread_map_count_ -> --new_tasks_count_ -> schedule_thread in add_new")
     rep.rule("C01.R9", "K4: a recycled thread object is rebound before use")
 
@@ -742,6 +747,41 @@ def run(rep, tier):
                             "terminated_items_count_ == 0): workers exit/sleep with objects still to be erased, or never do" % T(leaf))
         if nr < 2:
             raise AnalysisBroken("cleanup_terminated_locked: returns not found")
+
+    # ---- R18: a popped task description is converted and queued
+    from engine.kinds import edge_obligations as _eo18
+    MC = facts(rep, lib("thread_pools", "src/scheduled_thread_pool.cpp"), [r"^pika::threads::detail::thread_queue_mc::add_new$"])
+    conv_fns = [f for f in tqs if f.qname.endswith("::add_new")][:1] + [f for f in MC.fns if not f.pattern and f.parent == -1 and f.qname.endswith("thread_queue_mc::add_new")][:1]
+    if len(conv_fns) < 2:
+        raise AnalysisBroken("C01.R18: add_new of thread_queue / thread_queue_mc not found (%d)" % len(conv_fns))
+    for fn in conv_fns:
+        cls18 = fn.qname.rsplit("::", 2)[-2]
+        pops = [blk for blk in fn.blocks.values() if blk.cond is not None and re.search(r"new_task(_item)?s_\.pop\(", cond_atoms(blk.cond)[0])]
+        if not pops:
+            raise AnalysisBroken("%s::add_new: pop of the staged queue as a branch condition not found" % cls18)
+
+        def arm18(blk, label):
+            if blk.cond is None:
+                return None
+            a, pos = cond_atoms(blk.cond)
+            if re.search(r"new_task(_item)?s_\.pop\(", a) and label == ("true" if pos else "false"):
+                return "popped"
+            return None
+        state18 = {"created": False}
+
+        def dis18(ev):
+            # the obligation ends when the converted task has been queued
+            if ev.get("k") == "call" and callee_short(ev) in ("schedule_thread", "schedule_work"):
+                return "popped"
+            return None
+        probs = _eo18(fn, arm18, dis18)
+        creates = [e for _, _, e in fn.all_events() if e.get("k") == "call" and callee_short(e) == "create_thread_object"]
+        if probs or not creates:
+            rep.bad("C01.R18", fn, loc_of(pops[0].events[-1]) if pops[0].events else fn.loc, "popped-not-converted:" + cls18, "%s::add_new: a task description popped from the staged queue can "
+                    "reach %s without having been turned into a queued thread: the description is destroyed, the task's body is never entered, new_tasks_count_ and the activity count "
+                    "still count it (pika::wait() hangs)" % (cls18, probs[0][1] if probs else "the end of the loop body without create_thread_object"))
+        else:
+            rep.ok("C01.R18", fn, "%s::add_new: every popped description is created and queued before the next pop / the return" % cls18)
 
     # ---- R14: staged tasks are converted even at the thread-object cap
     rep.rule("C01.R14", "K7 (evaluated): thread_queue::add_new_always converts staged tasks (reaches add_new) whenever the thread map has room, and also "
